@@ -151,7 +151,7 @@ impl Family for XTarr {
             7 => r.pick(&[443636i64, 443637, -443636, -443637, i32::MAX as i64, i32::MIN as i64, 0]),
             _ => (443636 / tia) * tia + r.pick(&[0i64, tia, -tia]),
         };
-        let pre = r.pick(&[0u8, 0, 0, 0, 0, 1, 2, 3]);
+        let pre = r.pick(&[0u8, 0, 0, 0, 0, 0, 1, 2, 3, 4]);
         format!("xtarr {} {} {} {} {}", ts, start.clamp(i32::MIN as i64, i32::MAX as i64), pre, r.below(2), r.below(2))
     }
     fn run(&self, line: &str, ctx: &mut Ctx) -> String {
@@ -184,6 +184,19 @@ impl XTarr {
             3 => w.bank.set(pda, k(0xF7, 7), 5_000_000, vec![7u8; 64]),
             _ => {}
         }
+        // pre 4: the account offered is NOT at the array's address for this pool and start index
+        let (metas, pda) = if pre == 4 {
+            let wrong = k(0x99, 3);
+            let mut m = metas;
+            for x in m.iter_mut() {
+                if x.key == pda {
+                    x.key = wrong;
+                }
+            }
+            (m, wrong)
+        } else {
+            (metas, pda)
+        };
         let before = w.bank.clone();
         let (res, out) = w.bank.execute(&metas, &data);
         let tia = ts as i64 * 88;
@@ -209,6 +222,9 @@ impl XTarr {
                 if !valid {
                     ctx.viol(format!("C13 a tick array was created for start index {} which is not a valid start for spacing {}", start, ts));
                 }
+                if pre == 4 {
+                    ctx.viol("C15/C13 a tick array was created at an address that is not the array's address for its pool and start index".to_string());
+                }
                 if a.owner != ::whirlpool::ID {
                     ctx.viol("C13 the created tick array is not owned by the program".to_string());
                 }
@@ -233,7 +249,7 @@ impl XTarr {
                 }
                 let name = crate::ix::err_name(&e, &out.logs);
                 ctx.tag(&format!("err_{}", name.chars().take(28).collect::<String>()));
-                if valid && pre_eff == 0 {
+                if valid && pre_eff == 0 && pre != 4 {
                     ctx.viol(format!("C13 a tick array for the valid start index {} of spacing {} could not be created: {}", start, ts, name));
                 }
                 format!("err {}", name)
@@ -277,7 +293,7 @@ impl Family for XIni {
     fn gen(&self, r: &mut Rng, _idx: u64) -> String {
         let auth = r.pick(&[0u8, 0, 0, 0, 0, 0, 0, 1, 2]);
         match r.below(14) {
-            10 => return format!("xini cext {} {}", auth, b(r.chance(1, 8))),
+            10 => return format!("xini cext {} {}", auth, r.pick(&[0u8, 0, 0, 0, 0, 1, 2])),
             11 => return format!("xini badge {} {} {} {}", auth, b(r.chance(4, 5)), b(r.chance(1, 10)), b(r.chance(1, 8))),
             12 => return format!("xini dbadge {} {} {}", auth, b(r.chance(4, 5)), b(r.chance(5, 6))),
             13 => {
@@ -292,12 +308,12 @@ impl Family for XIni {
         }
         match r.below(10) {
             0 => format!("xini cfg {} {}", b(r.chance(3, 4)), r.pick(&[0u64, 300, 2499, 2500, 2500, 2501, 65535])),
-            1 | 2 => format!("xini tier {} {} {} {}", auth, b(r.chance(1, 8)), r.pick(&[0u64, 1, 8, 64, 128, 32896, 65535]), r.pick(&[0u64, 100, 3000, 59999, 60000, 60000, 60001, 65535])),
+            1 | 2 => format!("xini tier {} {} {} {}", auth, r.pick(&[0u8, 0, 0, 0, 0, 0, 1, 2]), r.pick(&[0u64, 1, 8, 64, 128, 32896, 65535]), r.pick(&[0u64, 100, 3000, 59999, 60000, 60000, 60001, 65535])),
             3..=5 => {
                 let ts = r.pick(&[0u64, 1, 2, 8, 64, 128, 256, 32896]);
                 let idx = if r.chance(1, 8) { ts } else { 1024 + r.below(100) };
                 let c = gen_consts(r, ts);
-                format!("xini atier {} {} {} {} {} {} {} {} {} {} {} {}", auth, b(r.chance(1, 10)), idx, ts, r.pick(&[0u64, 3000, 60000, 60000, 60001]), c[0], c[1], c[2], c[3], c[4], c[5], c[6])
+                format!("xini atier {} {} {} {} {} {} {} {} {} {} {} {}", auth, r.pick(&[0u8, 0, 0, 0, 0, 0, 0, 1, 2]), idx, ts, r.pick(&[0u64, 3000, 60000, 60000, 60001]), c[0], c[1], c[2], c[3], c[4], c[5], c[6])
             }
             _ => {
                 let ver = r.pick(&[1u8, 2, 2]);
@@ -381,7 +397,9 @@ impl XIni {
             "tier" | "atier" => {
                 let adaptive = t[1] == "atier";
                 let auth: u8 = t[2].parse().unwrap();
-                let pre = pb(t[3]);
+                // 0 the tier address is free · 1 taken by a tier of the other kind · 2 the account to create is NOT at the tier's address
+                let pre_mode: u8 = t[3].parse().unwrap();
+                let pre = pre_mode == 1;
                 let (idx, ts, fee): (u16, u16, u16) = if adaptive { (t[4].parse().unwrap(), t[5].parse().unwrap(), t[6].parse().unwrap()) } else { (t[4].parse().unwrap(), t[4].parse().unwrap(), t[5].parse().unwrap()) };
                 let mut c = [0u64; 7];
                 if adaptive {
@@ -403,6 +421,7 @@ impl XIni {
                     }
                     w.bank.set(pda, pid, 5_000_000, d);
                 }
+                let pda = if pre_mode == 2 { k(0x99, 1) } else { pda };
                 let signer_key = if auth == 1 { w.stranger } else { w.fee_auth };
                 let (mut metas, data): (Vec<Meta>, Vec<u8>) = if adaptive {
                     let acc = ::whirlpool::accounts::InitializeAdaptiveFeeTier { whirlpools_config: w.cfg, adaptive_fee_tier: pda, funder: w.funder, fee_authority: signer_key, system_program: sysid };
@@ -442,6 +461,9 @@ impl XIni {
                 }
                 if pre {
                     ctx.viol("C19 a fee tier was created over an existing tier of the other kind".to_string());
+                }
+                if pre_mode == 2 {
+                    ctx.viol("C15 a fee tier was created at an address that is not the tier's address for its config and index".to_string());
                 }
                 if fee > 60000 || ts == 0 {
                     ctx.viol(format!("C19 a fee tier was created with fee rate {} / spacing {}", fee, ts));
@@ -563,7 +585,8 @@ impl XIni {
             }
             "cext" => {
                 let auth: u8 = t[2].parse().unwrap();
-                let pre = pb(t[3]);
+                let pre_mode: u8 = t[3].parse().unwrap();
+                let pre = pre_mode == 1;
                 let mut w = world(64, 0);
                 let pda = Pubkey::find_program_address(&[b"config_extension", w.cfg.as_ref()], &pid).0;
                 if pre {
@@ -572,6 +595,7 @@ impl XIni {
                     d.resize(WhirlpoolsConfigExtension::LEN, 0);
                     w.bank.set(pda, pid, 5_000_000, d);
                 }
+                let pda = if pre_mode == 2 { k(0x99, 2) } else { pda };
                 let signer_key = if auth == 1 { w.stranger } else { w.fee_auth };
                 let acc = ::whirlpool::accounts::InitializeConfigExtension { config: w.cfg, config_extension: pda, funder: w.funder, fee_authority: signer_key, system_program: sysid };
                 let mut metas: Vec<Meta> = acc.to_account_metas(None).iter().map(Meta::from).collect();
@@ -587,6 +611,9 @@ impl XIni {
                 ctx.nontrivial(line);
                 if auth != 0 || pre {
                     ctx.viol(format!("C04 a config extension was created without the fee authority signing or over an existing one (mode {}, taken {})", auth, pre));
+                }
+                if pre_mode == 2 {
+                    ctx.viol("C15 a config extension was created at an address that is not its config's extension address".to_string());
                 }
                 let e = WhirlpoolsConfigExtension::try_deserialize(&mut &w.bank.data(&pda)[..]).unwrap();
                 if e.whirlpools_config != w.cfg || e.config_extension_authority != w.fee_auth || e.token_badge_authority != w.fee_auth {
